@@ -61,6 +61,9 @@ def step_jobs(tier):
         J("sack", "Verif_Step_sack_arb", ["accepted-icmp", "not-supported", "rejected"], L=56, loosen=1, max=30),
         J("sack", "Verif_Step_sack_arb", ["accepted-icmp", "not-supported", "rejected"], L=56, loosen=0, max=255),
         J("sack", "Verif_Step_sack_layout", ["accepted-sack", "rejected"], loosen=1, max=30, blocks=1),
+        # window at the bottom of the TTL range (MinTTL 1..3): tables indexed by TTL vs by TTL-MinTTL differ here
+        J("sack", "Verif_Step_sack_arb", ["accepted-icmp", "rejected"], L=56, loosen=1, max=3, W=3),
+        J("sack", "Verif_Step_sack_layout", ["accepted-sack", "rejected"], loosen=0, max=3, W=3, blocks=1),
     ]
     if tier == "quick":
         return q
@@ -208,7 +211,8 @@ spec("C16", ["C16/"], [J("result", "Verif_C16_hops", ["end"], runs=2, hops=2), J
      ["uuid.New returns 16 fresh bytes (model)"])
 spec("C17", ["C17/"], [J("result", "Verif_C17_redact", ["private", "public"], runs=1, hops=2),
                       J("server", "Verif_C19_query", ["accepted"], url="/traceroute?target=1.2.3.4&skip-private-hops=true", wantTarget="1.2.3.4", wantProtocol="udp", wantMethod="syn", wantSkip=1),
-                      J("server", "Verif_C19_query", ["accepted"], url="/traceroute?target=1.2.3.4&skip-private-hops=banana", wantTarget="1.2.3.4", wantProtocol="udp", wantMethod="syn", wantSkip=0)],
+                      J("server", "Verif_C19_query", ["accepted"], url="/traceroute?target=1.2.3.4&skip-private-hops=banana", wantTarget="1.2.3.4", wantProtocol="udp", wantMethod="syn", wantSkip=0),
+                      J("server", "Verif_C19_query", ["accepted"], url="/traceroute?target=1.2.3.4&windows-driver=true&reverse-dns=true&ipv6=true&source-public-ip=true", wantTarget="1.2.3.4", wantProtocol="udp", wantMethod="syn", wantSkip=0)],
      [J("result", "Verif_C17_redact", ["private", "public"], runs=2, hops=2), J("result", "Verif_C17_redact", ["private", "public"], runs=1, hops=3)],
      {"documents": "1-2 runs x 2-3 hops; every address byte symbolic (all block boundaries inside); RTT, flags, names symbolic"},
      ["JSON encoding of the redacted document", "cobra flag parsing", "ordering of redaction after enrichment in RunTraceroute (needs the multi-run harness)"])
@@ -281,7 +285,7 @@ fail_t = fail_q + [E("Verif_Engine_fail", ["fault-hit"], 3600, W=3, parallel=1, 
 
 spec("C07", ["C07/"], par_q, par_t, ENGINE_BOUNDS, ENGINE_OUTSIDE + ["'randomly beyond the bound' (a different technique; not substituted)"], models=ENGINE_MODELS)
 spec("C08", ["C08/"], par_q + ser_q[:2] + can_q, par_t + ser_t + can_t, ENGINE_BOUNDS,
-     ENGINE_OUTSIDE + ["the dial timeout of the SACK connection and getReadTimeout of the Windows/darwin sources (not reached by a harness)", "floods longer than two packets (each further packet repeats the same loop iteration against the same absolute deadline)"], models=ENGINE_MODELS)
+     ENGINE_OUTSIDE + ["the dial timeout of the SACK connection; the darwin/Windows capture handles themselves (only their shared getReadTimeout is checked)", "floods longer than two packets (each further packet repeats the same loop iteration against the same absolute deadline)"], models=ENGINE_MODELS)
 # extend C03 and C06 with the engine parts
 SPECS["C03"]["tiers"]["quick"]["jobs"] += par_q[:3] + ser_q
 SPECS["C03"]["tiers"]["thorough"]["jobs"] += par_t + ser_t
@@ -311,7 +315,7 @@ spec("C15", ["C15/", "C10/"], [M("traceroute", "Verif_C15_multi", ["all-succeede
      ["larger counts (the code is uniform in the count; not proved)", "reverse DNS and redaction ordering inside RunTraceroute"], models=ENGINE_MODELS)
 spec("C18", ["C18/", "C08/dns", "C08/http", "C08/publicip", "C10/"],
      [J("cache", "Verif_C18_cache", ["hit", "miss", "end"], ops=3),
-      M("result", "Verif_C18_rdns", ["end"], hops=1, max_preempt=2), M("result", "Verif_C18_rdns", ["end"], hops=2, max_preempt=1),
+      M("result", "Verif_C18_rdns", ["end", "retry-after-failure"], hops=1, max_preempt=2), M("result", "Verif_C18_rdns", ["end"], hops=2, max_preempt=1, maxKind=2, retry=0),
       M("publicip", "Verif_C18_publicip", ["found", "not-found"], providers=1, maxCalls=2),
       M("publicip", "Verif_C18_publicip", ["found", "not-found"], providers=3, maxCalls=3, maxKind=3)],
      [J("cache", "Verif_C18_cache", ["hit", "miss", "end"], ops=4),
@@ -319,7 +323,7 @@ spec("C18", ["C18/", "C08/dns", "C08/http", "C08/publicip", "C10/"],
       M("publicip", "Verif_C18_publicip", ["found", "not-found"], 7200, providers=2, maxCalls=3, backoffSet=1),
       M("publicip", "Verif_C18_publicip", ["found", "not-found"], providers=4, maxCalls=4, maxKind=3)],
      dict(CONC_BOUNDS, cache="3-4 GetWithExpiration operations on one key, symbolic gaps, callback success/failure symbolic, over the real go-cache",
-          rdns="1-2 hops + destination, symbolic addresses (equal ones included), resolver answer per address symbolic (names/empty/error)",
+          rdns="1-2 hops + destination, symbolic addresses (equal ones included), resolver answer per address symbolic (names / empty / error / the lookup's own deadline expired — the last one only with 1 hop in the quick tier); then a second round with a healthy resolver: stored successes are not re-queried, failed addresses are asked again",
           publicip="1-4 providers, <= 2-4 HTTP calls, response per call: 200 valid / 200 invalid body / any status 400..499 with a well-formed address / any status 500..599 with address / transport error; latency 0, 1 s, 2.5 s; back-off any duration <= 4.5 s"),
      ["real resolver and HTTP stack (contract models only)", "go-cache's janitor goroutine", "net.IP.String modelled as an injective function of the canonical address when the address is symbolic"],
      ["model resolver assigned to reversedns.LookupAddrFn", "(*http.Client).Do redirected to a scripted model client: returns no later than the deadline it was handed",
@@ -332,15 +336,17 @@ c12_q = [J("packets", "Verif_C12_exact", ["dropped"], filter="dropall"), J("pack
          J("icmp", "Verif_C12_nohide_icmp", ["accepted"], L=56), J("icmp", "Verif_C12_nohide_icmp", ["accepted"], L=96, v6=1),
          J("udp", "Verif_C12_nohide_udp", ["accepted"], L=56, loosen=1), J("udp", "Verif_C12_nohide_udp", ["accepted"], L=96, v6=1, min=2),
          J("tcp", "Verif_C12_nohide_tcp", ["accepted"], L=56), J("tcp", "Verif_C12_nohide_tcp", ["accepted"], L=40, paris=1),
-         J("sack", "Verif_C12_nohide_sack", ["accepted"], L=56, max=30, loosen=1)]
+         J("sack", "Verif_C12_nohide_sack", ["accepted"], L=56, max=30, loosen=1),
+         J("sack", "Verif_C12_nohide_handshake", ["established", "unsupported", "rejected"], L=44, maxDOff=6)]
 c12_t = c12_q + [J("icmp", "Verif_C12_nohide_icmp", ["accepted"], L=60, maxIHL=6), J("udp", "Verif_C12_nohide_udp", ["accepted"], L=60, maxIHL=6, loosen=0),
                  J("tcp", "Verif_C12_nohide_tcp", ["accepted"], L=60, maxIHL=6), J("tcp", "Verif_C12_nohide_tcp", ["accepted"], L=48, maxDOff=7),
-                 J("sack", "Verif_C12_nohide_sack", ["accepted"], L=60, maxIHL=6, max=255, loosen=0), J("icmp", "Verif_C12_nohide_icmp", ["accepted"], L=28)]
+                 J("sack", "Verif_C12_nohide_sack", ["accepted"], L=60, maxIHL=6, max=255, loosen=0), J("icmp", "Verif_C12_nohide_icmp", ["accepted"], L=28),
+                 J("sack", "Verif_C12_nohide_handshake", ["established", "unsupported", "rejected"], 3600, L=48, maxDOff=7)]
 spec("C12", ["C12/"], c12_q, c12_t,
      {"frames": "Ethernet frame of 110 symbolic bytes with a symbolic captured length 0..110 (covers IHL 15 + TCP header; longer frames differ only in bytes no program reads)",
       "configuration": "filter tuple (both addresses, both ports) symbolic",
       "vm": "the program returned by the real getClassicBPFFilter / GenerateTCP4Filter, disassembled and executed by the real golang.org/x/net/bpf VM under the symbolic executor",
-      "no-hidden-reply": "frame = 14 symbolic Ethernet bytes (ethertype of the family) + the arbitrary IP packet of the step harnesses; matcher accepts => filter accepts, with the filter each entry point installs"},
+      "no-hidden-reply": "frame = 14 symbolic Ethernet bytes (ethertype of the family) + the arbitrary IP packet of the step harnesses; matcher accepts => filter accepts, with the filter each entry point installs; for the SACK handshake phase: the real ReadHandshake establishes or reports 'unsupported' on an arbitrary 44-48 byte packet (TCP options up to 8 bytes) => the SYN-ACK filter accepts"},
      ["the kernel's cBPF interpreter (trusted to agree with x/net/bpf)", "VLAN-tagged frames", "the SYN-ACK handshake phase of the SACK run against its filter (handshake harness not built yet)",
       "'unfragmented' is read as fragment offset = 0, which is what the property's own expression (jset 0x1fff) denotes"])
 
@@ -399,7 +405,15 @@ SPECS["C09"]["tiers"]["quick"]["jobs"] += noise
 SPECS["C09"]["tiers"]["thorough"]["jobs"] += noise + [dict(J("udp", "Verif_C02_udp4", ["accepted", "noise-skipped"], form=2, noise=56, loosen=1), labels=noise_labels), dict(J("tcp", "Verif_C02_tcp", ["accepted", "noise-skipped"], form=0, noise=56, paris=1), labels=noise_labels),
                                                   dict(J("sack", "Verif_C02_sack", ["accepted", "noise-skipped"], form=0, noise=56, max=255, loosen=0), labels=noise_labels)]
 SPECS["C09"]["bounds"]["state independence"] = "one arbitrary non-accepted packet (28-56 bytes) delivered through the real ReceiveProbe before a genuine reply of the catalogue: the genuine reply is still recognised with the same TTL and responder"
-hs_q = [J("sack", "Verif_C08_handshake", ["end"], flood=1, L=40), J("sack", "Verif_C08_handshake", ["end"], flood=1, L=56)]
+# C19 "probes cover precisely the requested TTL range ... including the extremes 1 and 255": the engines at MaxTTL = 255
+# (and the window 1..2), judged on the emission obligations
+c19_engine_labels = ["C19/", "C06/increasing-from-first-ttl-once-each", "C06/at-most-one-per-ttl", "C03/consecutive-ttl", "C03/never-empty"]
+c19_engine = [dict(par_q[3], labels=c19_engine_labels), dict(ser_q[2], labels=c19_engine_labels), dict(par_q[0], labels=c19_engine_labels)]
+SPECS["C19"]["tiers"]["quick"]["jobs"] += c19_engine
+SPECS["C19"]["tiers"]["thorough"]["jobs"] += c19_engine
+SPECS["C19"]["bounds"]["engines at the extremes"] = "the real TracerouteParallel / TracerouteSerial over the model driver with the window 254..255 (MaxTTL = 255) and 1..1: exactly one probe per requested TTL, in order, none outside the range"
+hs_q = [J("sack", "Verif_C08_handshake", ["end"], flood=1, L=40), J("sack", "Verif_C08_handshake", ["end"], flood=1, L=56),
+        J("packets", "Verif_C08_readtimeout", ["deadline", "no-deadline"])]
 hs_t = hs_q + [J("sack", "Verif_C08_handshake", ["end"], 3600, flood=2, L=40)]
 SPECS["C08"]["tiers"]["quick"]["jobs"] += hs_q
 SPECS["C08"]["tiers"]["thorough"]["jobs"] += hs_t
@@ -418,6 +432,9 @@ SPECS["C17"]["labels"] = ["C17/", "C16/reachable", "C19/request"]
 SPECS["C17"]["outside_bounds"] = ["JSON encoding of the redacted document", "cobra flag parsing"]
 
 for prop, s in SPECS.items():
+    # thorough jobs get at least an hour each: the deeper bounds were measured at up to ~15 min on an idle
+    # machine, and a thorough run may share the machine
+    s["tiers"]["thorough"]["jobs"] = [dict(j, timeout_s=max(j.get("timeout_s", 600), 3600)) for j in s["tiers"]["thorough"]["jobs"]]
     with open(os.path.join(HERE, prop + ".json"), "w") as f:
         json.dump(s, f, indent=1)
 print("wrote", ", ".join(sorted(SPECS)))
